@@ -70,11 +70,37 @@ class _P:
                 self.i += 1
 
     def value(self, locals_):
+        """primary ( '+' primary )* : concatenation of arrays / strings, union of objects, sum of numbers"""
+        v = self.primary(locals_)
+        while True:
+            self.ws()
+            if self.i < len(self.s) and self.s[self.i] == '+':
+                self.i += 1
+                w = _force(self.primary(locals_))
+                v = _force(v)
+                if isinstance(v, dict) and isinstance(w, dict):
+                    v = {**v, **w}
+                elif type(v) in (list, str, int, float) and type(w) in (list, str, int, float):
+                    v = v + w
+                else:
+                    self.err('operands of + have unsupported types')
+            else:
+                return v
+
+    def primary(self, locals_):
         self.ws()
         s = self.s
         if self.i >= len(s):
             self.err('unexpected end of file')
         c = s[self.i]
+        if c == '(':
+            self.i += 1
+            v = self.value(locals_)
+            self.ws()
+            if self.i >= len(s) or s[self.i] != ')':
+                self.err('expected )')
+            self.i += 1
+            return v
         if c in '\'"':
             return self.string()
         if c == '[':
@@ -168,6 +194,19 @@ def load_file(path):
         target = os.path.join(os.path.dirname(path), fn)
         locals_[name] = (lambda t=target, fld=field: get_field(t, fld))
         p.i = m.end()
+    while True:
+        # local name = <expression>;   (a literal, a concatenation, an earlier local)
+        p.ws()
+        m = re.compile(r'local\s+(\w+)\s*=\s*').match(p.s, p.i)
+        if not m:
+            break
+        p.i = m.end()
+        val = p.value(locals_)
+        p.ws()
+        if p.i >= len(p.s) or p.s[p.i] != ';':
+            p.err('expected ; after a local binding')
+        p.i += 1
+        locals_[m.group(1)] = (lambda v=val: _force(v))
     obj = p.value(locals_)
     p.ws()
     if p.i != len(p.s):
@@ -208,14 +247,29 @@ class Params:
     def __contains__(self, key):
         return key in self._obj
 
-    def as_dict(self):
-        return {k: _force(v) for k, v in self._obj.items()}
+    def as_dict(self, *a, **k):
+        out = {}
+        for key, v in self._obj.items():
+            try:
+                out[key] = _force(v)
+            except Exception:       # (a field whose import cannot be evaluated here, e.g. an emptied file)
+                out[key] = None
+        return out
+
+    def keys(self):
+        return self._obj.keys()
+
+    def __iter__(self):
+        return iter(self._obj)
 
 
 def string_literals(path):
     """independent regex extraction of every string literal of a file (cross-check)"""
     with open(path, encoding='utf-8') as f:
         txt = f.read()
+    # comments are not literals: drop // ... , # ... and /* ... */ that stand outside strings
+    txt = re.sub(r"""('(?:[^'\\]|\\.)*'|"(?:[^"\\]|\\.)*")|//[^\n]*|#[^\n]*|/\*.*?\*/""",
+                 lambda m: m.group(1) or '', txt, flags=re.S)
     out = []
     for a, b in re.findall(r"'((?:[^'\\]|\\.)*)'|\"((?:[^\"\\]|\\.)*)\"", txt):
         s = a or b
